@@ -60,7 +60,7 @@ class Prop:
     id = "C28"
     level = "exploration"
     engine = "VT"
-    quick_runs = 60000
+    quick_runs = 250000
     thorough_runs = 3000000
     rule = ("seeded histories of schedule_absolute/schedule_relative/schedule calls (past, present and future due times, ties), actions that "
             "schedule further actions, cancel others and call stop(), interleaved with advance_to/advance_by/sleep/start, on "
